@@ -32,6 +32,11 @@ def worker_init(ctx):
     warnings.simplefilter('ignore')
     import logging
     logging.disable(logging.CRITICAL)
+    _SHUFFLE['p'] = 0.3
+
+
+def worker_finish(ctx):
+    ctx.count('mpo.shuffled_virtual_indices', _SHUFFLE['n'])
 
 
 class _Skip(Exception):
@@ -98,8 +103,15 @@ def make_mpo(rng, L=None, kind=None, hermitian=False, nterms=None, all_id=None):
     tl = TermList(terms, strengths)
     g = MPOGraph.from_term_list(tl, sites, bc='finite', insert_all_id=bool(rng.random() < 0.7) if all_id is None else all_id)
     H = g.build_MPO()
+    if _SHUFFLE['p'] and rng.random() < _SHUFFLE['p']:
+        # same operator, virtual indices (and the IdL / IdR markers) at arbitrary positions of every bond
+        H = shuffle_virtual(H, rng)
+        _SHUFFLE['n'] += 1
     ref = sum(s * dense.term_matrix(sites, t) for s, t in zip(strengths, terms))
     return H, ref, sites, kind, terms, strengths
+
+
+_SHUFFLE = {'p': 0.0, 'n': 0}  # switched on by this check's own workers only (other checks borrow make_mpo as a generator)
 
 
 def rand_state(rng, sites):
@@ -437,6 +449,32 @@ def do_apply(ctx, rng, i):
     finish(ctx, i, 'apply', H, kind, L, case)
 
 
+def shuffle_virtual(H, rng):
+    """The same operator with the virtual indices of every bond relabelled by a random permutation (markers moved along)."""
+    from tenpy.networks.mpo import MPO
+    L = H.L
+    chis = [H.get_W(k).get_leg('wL').ind_len for k in range(L)] + [H.get_W(L - 1).get_leg('wR').ind_len]
+    perms = [rng.permutation(c) for c in chis]
+    if H.bc != 'finite':
+        perms[L] = perms[0]
+    Ws = []
+    for k in range(L):
+        W = H.get_W(k).copy(deep=True)
+        W = W.permute(perms[k], 'wL').permute(perms[k + 1], 'wR')
+        Ws.append(W)
+
+    def move(marker, b):
+        if marker is None:
+            return None
+        return int(np.argsort(perms[b])[int(marker) % chis[b]])  # new position of the old index
+
+    IdL = [move(H.IdL[b], b) for b in range(L + 1)]
+    IdR = [move(H.IdR[b], b) for b in range(L + 1)]
+    H2 = MPO(H.sites, Ws, bc=H.bc, IdL=IdL, IdR=IdR, max_range=H.max_range, explicit_plus_hc=H.explicit_plus_hc)
+    H2.test_sanity()
+    return H2
+
+
 def do_make_U(ctx, rng, i):
     """Both propagators of Zaletel et al. have an error O(dt^2) per step (slope >= 2 - 0.5); U_II is exact for on-site terms."""
     import scipy.linalg
@@ -467,14 +505,29 @@ def do_make_U(ctx, rng, i):
     H = MPOGraph.from_term_list(TermList(terms, strengths), sites, bc='finite', insert_all_id=True).build_MPO()
     ref = sum(s * dense.term_matrix(sites, t) for s, t in zip(strengths, terms))
     which = str(rng.choice(['I', 'II']))
-    case = case_of(kind, L, terms, strengths, options={'approximation': which})
+    shuffled = bool(rng.random() < 0.5)
+    if shuffled:
+        # markers IdL / IdR at arbitrary positions of the bonds (explicit W tensors need not follow the MPOGraph layout)
+        H = shuffle_virtual(H, rng)
+        ctx.count('make_U.shuffled_markers')
+        if not (np.linalg.norm(dense.mpo_to_matrix(H) - ref) <= 1e-10 * max(1.0, np.linalg.norm(ref))):
+            raise RuntimeError('harness: relabelled MPO is not the same operator')
+    case = case_of(kind, L, terms, strengths, options={'approximation': which, 'shuffled_virtual_indices': shuffled})
     ctx.count('op.make_U')
     nrm = max(np.linalg.norm(ref, 2), 1e-3)
     dts = [0.2 / nrm, 0.1 / nrm, 0.05 / nrm]
     errs = []
     for dt in dts:
-        U = H.make_U(-1j * dt, which)
-        Ud = dense.mpo_to_matrix(U)
+        try:
+            U = H.make_U(-1j * dt, which)
+            U.test_sanity()
+            Ud = dense.mpo_to_matrix(U)
+        except Exception as e:
+            tb = traceback.format_exc()
+            # (the dense conversion worked for H itself: if it fails for U, the markers / legs of the returned MPO are inconsistent)
+            where = 'raises' if '/tenpy/' in tb else 'returns-inconsistent-MPO'
+            ctx.violation('make_U_%s:%s-%s%s' % (which, where, type(e).__name__, ':shuffled-markers' if shuffled else ''), tb[-600:], case)
+            return
         errs.append(np.linalg.norm(Ud - scipy.linalg.expm(-1j * dt * ref)))
     if min(errs) > 1e-12:
         slope = np.log(errs[0] / errs[-1]) / np.log(dts[0] / dts[-1])
